@@ -542,6 +542,15 @@ def run(tier, fx=None, ck=None, control=False):
                         anc |= ancestors(r, pl[0])
                     writes.append((bi, bool(anc & set(path_params))))
         run_sites = [bi for bi, t in r.calls() if t[1].get("d") in body_runners]
+        # `setup(..).and_then(|()| self.execute_program_bytecode(..))`: the body runs where the closure is handed to the adapter
+        import re as _re
+        for g in fx.fns.values():
+            if g.closure and g.parent == r.path and any(t[1].get("d") in body_runners for _, t in g.calls()):
+                start = g.span.split("-")[0]
+                for bi, t in r.calls():
+                    for a in t[2]:
+                        if a[0] in ("c", "m") and ("{closure@%s:" % start) in fx.tys(r.locals[a[1][0]]):
+                            run_sites.append(bi)
         if not run_sites:
             continue
         installs = {b for b, ins in writes if ins}
@@ -633,11 +642,29 @@ def live_bindings(fx, ck, scope, tops, installers, pre, control):
             for var in ("Named", "Default"):
                 if var not in sw[3]:
                     continue
-                region = M.dominated_region(f, sw[3][var])
-                callees = {t[1].get("d") for bi, t in f.calls() if bi in region}
-                inline = any(s[0] == "a" and s[2][0] == "agg" and s[2][1].get("k") == "adt" and s[2][1].get("p", "").endswith("ImportBinding")
-                             for bi in region for s in f.blocks[bi]["s"])
-                ok = bool(callees & (reach_b - {ip})) or inline
+                # must-pass-through: from the arm, the next specifier (the header of the innermost loop around the match) is reached only
+                # through a block that creates the ImportBinding - inside the arm, or after the arms join (`let (local, key) = match ..`)
+                creators = {bi for bi, t in f.calls() if t[1].get("d") in (reach_b - {ip})}
+                creators |= {bi for bi, bl in enumerate(f.blocks) for s in bl["s"]
+                             if s[0] == "a" and s[2][0] == "agg" and s[2][1].get("k") == "adt" and s[2][1].get("p", "").endswith("ImportBinding")}
+                import loops as L
+                inner = [h for h, body in L.natural_loops(f) if sw[0] in body]
+                inner.sort(key=lambda h: len(dict(L.natural_loops(f))[h]))
+                ok = bool(creators)
+                if inner and creators:
+                    seenb, work = set(), [sw[3][var]]
+                    while work:
+                        b = work.pop()
+                        if b in seenb or b in creators:
+                            continue
+                        seenb.add(b)
+                        if b == inner[0]:
+                            ok = False
+                            break
+                        work.extend(f.succ(b))
+                elif creators:
+                    region = M.dominated_region(f, sw[3][var])
+                    ok = bool(creators & region)
                 ck.instance("R5.live-bindings", "%s / ImportSpecifier::%s binds through an ImportBinding" % (ip, var),
                             F.short_span(f.blocks[sw[3][var]]["t"][-1]) if isinstance(f.blocks[sw[3][var]]["t"][-1], str) else F.short_span(f.span), ok=ok)
                 if not ok:
